@@ -96,10 +96,10 @@ PROPS = {
     ),
     "C01": dict(
         module="SeliumModel.Props.C01",
-        suites=["pubsub", "fanout"],
+        suites=["pubsub", "fanout", "registry"],
         level="proof",
         rule="pubsub: the real pubsub::Topic driven by a wake-driven executor around scripted mock publisher streams and subscriber sinks (ready/pending/error/silent at every operation), scenarios = systematic variations around stream completion while a flush is pending and registrations behind an idle publisher, plus seeded random histories of enqueue/close/poll; every child call, poll result, waker holder, skipped poll and final got/flushed state compared with the Lean model; "
-             "fanout: the real FanoutMany, exhaustive over 10 fault/pending placements for up to 3 sinks x 4 operation sequences, plus random; distinct = distinct case lines, trivial = scenarios in which no item was accepted / no sink exists",
+             "fanout: the real FanoutMany, exhaustive over 10 fault/pending placements for up to 3 sinks x 4 operation sequences, plus random; registry (isolation half): raw subscribers and publishers on pairs of names that are close to each other (same text with the separator moved, swapped parts, case, '-' / '_', one more character, look-alike letters, the same name twice) through a real server: every subscriber sees exactly the traffic of its own name; distinct = distinct case lines, trivial = scenarios in which no item was accepted / no sink exists",
         trusted_base=COMMON_TRUST + [
             "futures::channel::mpsc Receiver: FIFO; Ready(Some) while queued, Ready(None) once closed and drained (re-pollable), Pending otherwise and then holds the waker; send/close_channel fire it",
             "tokio_stream::StreamMap::poll_next as modelled exactly in Route/StreamMap.lean (random start given by the observed poll order)",
